@@ -376,6 +376,9 @@ def prefetch_level_peels_exactly_the_singletons(K, which, n):
         K.ensure(f"line {i} is peeled iff it has exactly one incidence", (count == 1) == (i in single))
     K.ensure("peeled lines are reported in index order", got_lines == [lines_ids[i] for i in single])
     K.ensure("remaining lines keep their order", rem_lines == [lines_ids[i] for i in range(n) if i not in single])
+    K.ensure("one partner is reported for every peeled line", len(got_cross) == len(single))
+    if len(got_cross) != len(single):
+        return
     cols = []
     for k, i in enumerate(single):
         j = cross_ids.index(got_cross[k]) if got_cross[k] in cross_ids else None
@@ -400,7 +403,7 @@ AUTO_SRC = "!transition-variables\n a, b, c, d\n!parameters\n p, q, r, s\n!trans
 
 
 @contract("C16", targets=["irispie.simultaneous._steady:_resolve_steady_wrt", "irispie.simultaneous._steady:_calculate_steady_incidence_matrix"],
-          instances=[(False,), (True,)], cross=0, opts={"max_paths": 200})
+          instances=[(False,), (True,), ("fix_level",), ("swap and fix_level",)], cross=0, opts={"max_paths": 200})
 def steady_system_is_square_and_made_of_the_model_equations(K, with_plan):
     """The system handed to the block analysis consists of the transition and measurement equations (NOT the
     !steady-autovalues, which are evaluated after the solution) and of as many unknowns: the endogenous variables, with
@@ -410,9 +413,12 @@ def steady_system_is_square_and_made_of_the_model_equations(K, with_plan):
     unknowns = ["a", "b", "c", "d", "y"]
     if with_plan:
         plan = ir.SteadyPlan(m)
-        plan.exogenize("d")
-        plan.endogenize("p")
-        unknowns = ["a", "b", "c", "p", "y"]
+        if with_plan != "fix_level":
+            plan.exogenize("d")
+            plan.endogenize("p")
+            unknowns = ["a", "b", "c", "p", "y"]
+        if with_plan in ("fix_level", "swap and fix_level"):
+            plan.fix_level("a")       # a fixed level stays a column of the system handed to the block analysis (its value is held, its equation remains)
     wrt = K.call(STD._resolve_steady_wrt, K.lift(m), K.lift(plan) if plan is not None else None, is_flat=True)
     n2q = m.create_name_to_qid()
     fields = list(STD._Wrt._fields)
